@@ -26,7 +26,7 @@ func init() {
 	register(&Rule{ID: "R09.4", Props: []string{"C09", "C04"}, Floor: 40,
 		Doc: "failure discipline: a status returned on the failing edge of an OK()/err!=nil test is never OK",
 		Run: runR09_4})
-	register(&Rule{ID: "R09.5", Props: []string{"C09", "C19"}, Floor: 2,
+	register(&Rule{ID: "R09.5", Props: []string{"C09", "C19"}, Floor: 1,
 		Doc: "roundRobin never returns a closed connection",
 		Run: runR09_5})
 }
@@ -150,6 +150,15 @@ func mustCalls(fn *ssa.Function) (atExit Facts, res *FlowResult) {
 		if call, ok := i.(ssa.CallInstruction); ok {
 			if l := calleeLabel(call); l != "" {
 				f[l] = true // deferred calls run before the function returns: counted at registration
+			}
+			// a helper of the same package (conn.runLoops called by conn.run): what it calls on all of its own
+			// paths is called here too
+			if _, isGo := i.(*ssa.Go); !isGo {
+				if h := call.Common().StaticCallee(); h != nil && h != fn && h.Blocks != nil && h.Pkg != nil && h.Pkg == fn.Pkg && h.Synthetic == "" {
+					for l := range mustCallsAtExit(h) {
+						f[l] = true
+					}
+				}
 			}
 			// deferred closures: count the calls inside
 			if d, ok := i.(*ssa.Defer); ok {
@@ -470,7 +479,22 @@ func runR09_5(c *Ctx, r *R) {
 			r.Bad(key, ret.Pos(), "a connection can be handed out without checking its Closed() flag: calls fail on a dead connection although a live one (or a redial) is available")
 		}
 	}
-	if n < 2 {
-		r.Unk(fnKey(f)+"/return-conn", f.Pos(), "expected two connection-returning paths, found %d", n)
+	if n < 1 {
+		r.Unk(fnKey(f)+"/return-conn", f.Pos(), "anchor lost: no connection-returning path")
 	}
+	roundRobinCoverage(c, r, f)
+}
+
+var mustCallsMemo = map[*ssa.Function]Facts{}
+
+// mustCallsAtExit: the labelled calls made on every path through fn (memoised; a function being summarised
+// contributes nothing to its own summary).
+func mustCallsAtExit(fn *ssa.Function) Facts {
+	if m, ok := mustCallsMemo[fn]; ok {
+		return m
+	}
+	mustCallsMemo[fn] = Facts{}
+	at, _ := mustCalls(fn)
+	mustCallsMemo[fn] = at
+	return at
 }
